@@ -1064,6 +1064,7 @@ U_RAISING = ["KeyboardInterrupt", "SystemExit", "OSError", "SIGINT", "SIGTERM-ex
 U_CALL_QUICK = ["create", "overwrite", "build_first", "rebuild_edges", "corrfunc_over", "corrdata_over"]
 U_CALL_MORE = ["metadata", "rebuild_closed", "rebuild_forced", "corrfunc_fresh", "corrdata_fresh", "p00_CorrData", "p07_CorrFunc"]
 U_PARALLEL = 10
+U_TIMEOUT = 25       # seconds after which a job that does not come back is killed (an uninterrupted run takes 2 - 4)
 
 
 def pgroup_alive(pgid):
@@ -1105,7 +1106,7 @@ def run_interrupted(S, j, u):
                              stdin=subprocess.DEVNULL, stdout=subprocess.DEVNULL, stderr=errf, start_new_session=True)
         u["hung"] = False
         try:
-            p.wait(timeout=u.get("timeout", 90))
+            p.wait(timeout=u.get("timeout", U_TIMEOUT))
         except subprocess.TimeoutExpired:
             u["hung"] = True                  # e.g. a pool that never comes back after ctrl-c: the user kills the job
     t_end = time.time() + (0 if u["hung"] else U_GRACE)
@@ -1250,6 +1251,8 @@ class Unwound:
         ucases = []
         for u in done:
             w = u["w"]
+            if u["hung"]:
+                u["chk"] = False      # killed by the harness wherever its processes were: any state may be left
             u["lterm"] = S.ab_for(w).state(u["state"])
             for req in (w["requests"] or [DEFAULT_REQ]):
                 cls, det = S.classify(w, u["state"], req)
@@ -1269,7 +1272,9 @@ class Unwound:
             runs=len(done), cases=len(ucases), calls_per_workload={c["w"]["name"]: c["calls"] for c in counts},
             died=sum(1 for u in done if u["fired"] and not u["completed"]), hung=sum(1 for u in done if u["hung"]),
             left_processes_behind=sum(1 for u in done if u["orphans"]),
-            exit_statuses=sorted({str(u["rc"]) for u in done}))
+            exit_statuses=sorted({str(u["rc"]) for u in done}),
+            hung_runs=[dict(workload=u["w"]["name"], workers=u["workers"], mode=u["mode"], hook=u["hook"], at=u["at"], fired=u["fired"],
+                            left_on_disk=sorted(u["state"].files), stderr=u["stderr"][-300:]) for u in done if u["hung"]][:6])
         return ucases
 
 
@@ -1300,7 +1305,12 @@ def unwound_compare(ctx, header, ucases):
             terms.append("c08_unwound %s %s %s %d %d %s" % (fixed, c["w"]["coq_name"], c["lterm"], TAG.get(c["req"], 0), c["cls"],
                                                            "true" if c["chk"] else "false"))
     t0 = time.time()
-    codes = ctx.shards("Unwound_C08", header, terms, shard=12)
+    # only the workloads the interrupted runs refer to (the header of the crash points holds those of every scale)
+    used = {}
+    for c in ucases:
+        used[int(c["w"]["coq_name"][1:])] = c["w"]
+    header = HEADER + "\n".join("Definition w%d : workload := %s." % (j, used[j]["term"]) for j in sorted(used)) + "\n"
+    codes = ctx.shards("Unwound_C08", header, terms, shard=max(12, -(-len(terms) // 16)))
     ctx.log("interrupted runs: %d terms evaluated in Coq in %.1fs (at the same time as the crash points)" % (len(terms), time.time() - t0))
     for n, c in enumerate(ucases):
         c["code"] = {False: codes[2 * n], True: codes[2 * n + 1]}
